@@ -69,10 +69,14 @@ func (m *Machine) binop(op token.Token, tx, ty types.Type, x, y Value) Value {
 		b := y.(StrV)
 		switch op {
 		case token.ADD:
-			nb := make([]*sym.Term, 0, len(a.B)+len(b.B))
-			nb = append(nb, a.B...)
-			nb = append(nb, b.B...)
-			return StrV{nb}
+			if a.Conc && b.Conc {
+				return StrV{C: a.C + b.C, Conc: true}
+			}
+			ab, bb := m.sb(a), m.sb(b)
+			nb := make([]*sym.Term, 0, len(ab)+len(bb))
+			nb = append(nb, ab...)
+			nb = append(nb, bb...)
+			return StrV{B: nb}
 		case token.LSS:
 			return m.strLess(a, b)
 		case token.GTR:
@@ -201,7 +205,7 @@ func (m *Machine) conv(dst, src types.Type, x Value) Value {
 					m.onAccess(PtrV{s.Arr, []int{s.Off + i}}, false)
 					b[i] = e.(*sym.Term)
 				}
-				return StrV{b}
+				return StrV{B: b}
 			}
 			// []rune -> string: concrete only
 			var out []byte
@@ -223,8 +227,9 @@ func (m *Machine) conv(dst, src types.Type, x Value) Value {
 			if sl, ok := ud.(*types.Slice); ok {
 				s := x.(StrV)
 				if w, _, _ := intInfo(sl.Elem()); w == 8 {
-					arr := make(ArrayV, len(s.B))
-					for i, b := range s.B {
+					sbs := m.sb(s)
+					arr := make(ArrayV, len(sbs))
+					for i, b := range sbs {
 						arr[i] = b
 					}
 					if len(arr) == 0 {
@@ -268,7 +273,7 @@ func (m *Machine) conv(dst, src types.Type, x Value) Value {
 				if !t.IsConst() {
 					// string(rune): fork on ASCII
 					if m.Branch(m.S.Cmp("bvult", t, m.S.Const(t.W, 0x80))) {
-						return StrV{[]*sym.Term{m.S.Resize(t, 8, false)}}
+						return StrV{B: []*sym.Term{m.S.Resize(t, 8, false)}}
 					}
 					m.unsupported("string(rune) with symbolic non-ASCII rune")
 				}
@@ -310,7 +315,7 @@ func (m *Machine) callBuiltin(caller *frame, b *ssa.Builtin, args []Value, pos t
 				m.onAccess(PtrV{s.Arr, []int{s.Off + i}}, false)
 			}
 		case StrV:
-			for _, t := range s.B {
+			for _, t := range m.sb(s) {
 				src = append(src, t)
 			}
 		}
@@ -334,7 +339,7 @@ func (m *Machine) callBuiltin(caller *frame, b *ssa.Builtin, args []Value, pos t
 	case "len":
 		switch x := args[0].(type) {
 		case StrV:
-			return m.S.Const(64, uint64(len(x.B)))
+			return m.S.Const(64, uint64(x.Len()))
 		case SliceV:
 			return m.S.Const(64, uint64(x.Len))
 		case ArrayV:
@@ -524,7 +529,7 @@ func (m *Machine) appendOp(b *ssa.Builtin, args []Value) Value {
 			m.onAccess(PtrV{a.Arr, []int{a.Off + i}}, false)
 		}
 	case StrV:
-		for _, t := range a.B {
+		for _, t := range m.sb(a) {
 			add = append(add, t)
 		}
 	}
